@@ -1,5 +1,6 @@
 """Per-property generators and oracles of the `conn` family (C01 C02 C03 C04 C05 C06 C09 C10 C11 C16 C19)."""
 import random
+import re
 
 import connlib as cl
 import lib
@@ -325,6 +326,19 @@ def c06_scripts(ctx):
     # accounting part: all inputs
     acc = mixed_scripts(ctx, 300 if ctx.tier == "quick" else 3000, policy_p=0.0, tail=False,
                         cfg_fn=lambda r: r.choice(("respdecomp=0", "p=IDS,respdecomp=0")))
+    # gaps inside bodies (both directions), with and without the library's own body parsers, followed by more body data
+    for _ in range(100 if ctx.tier == "quick" else 1000):
+        ct = rng.choice((b"application/x-www-form-urlencoded", b"multipart/form-data; boundary=B", b"text/plain"))
+        body = rng.choice((b"a=1&bb=2&c=%41+d&e", b"--B\r\nContent-Disposition: form-data; name=\"f\"\r\n\r\nvalue\r\n--B--\r\n",
+                           bytes(rng.choice(b"ab=&\r\n-B") for _ in range(rng.randint(6, 40)))))
+        k = rng.randint(1, len(body) - 3)
+        gl = rng.randint(1, min(3, len(body) - k - 1))
+        head = b"POST /g HTTP/1.1\r\nHost: h\r\nContent-Type: " + ct + b"\r\nContent-Length: %d\r\n\r\n" % len(body)
+        rbody = bytes(rng.choice(b"xyz\r\n") for _ in range(rng.randint(4, 20)))
+        rk = rng.randint(1, len(rbody) - 2)
+        items = [">" + traffic.hx(head + body[:k]), "g>%d" % gl] + [">" + traffic.hx(x) for x in traffic.chunkings(body[k + gl:], rng, rng.choice(("whole", "rand")))]
+        items += ["<" + traffic.hx(b"HTTP/1.1 200 OK\r\nContent-Length: %d\r\n\r\n" % len(rbody) + rbody[:rk]), "g<1", "<" + traffic.hx(rbody[rk + 1:])]
+        acc.append(traffic.script(rng.choice(("respdecomp=0,urlenc=1,mpart=1", "respdecomp=0", "p=IDS,respdecomp=0,urlenc=1", "respdecomp=0,mpart=1")), "-", items))
     return out, meta, acc
 
 
@@ -350,7 +364,15 @@ def c06_accounting(sc, outs):
         for side, evs, el, ml in (("request", req.get(uid, []), "el", "ml"), ("response", res.get(uid, []), "sel", "sml")):
             delivered = sum((len(e.data) if e.kind == "bytes" else (e.data if e.kind == "gap" else 0)) for e in evs)
             if int(t[el]) != delivered:
-                found.append(("entity-len", "%s entity_len=%s but %d bytes were delivered to body callbacks (tx %d)" % (side, t[el], delivered, uid)))
+                sig = "entity-len"
+                # S35: a gap inside a request body that the library's own urlencoded / multipart callback parses is taken for the
+                # end of the body (NULL data); the callback then refuses the next piece with HTP_ERROR *after* entity_len was
+                # advanced and *before* the user callbacks run. Attributed only to exactly that history: own body parser enabled,
+                # a gap delivered in this body, the inbound stream in error, and more counted than delivered.
+                if (side == "request" and re.search(r"\b(urlenc|mpart)=1\b", sc[0]) and any(e.kind == "gap" for e in evs)
+                        and g and g.get("in_status") == "3" and int(t[el]) > delivered and int(t.get("rp", "0")) == 3):
+                    sig = "S35"
+                found.append((sig, "%s entity_len=%s but %d bytes were delivered to body callbacks (tx %d)" % (side, t[el], delivered, uid)))
             if int(t[ml]) < int(t[el]):
                 found.append(("S9" if side == "request" else "message-len",
                               "%s message_len=%s < entity_len=%s (tx %d)" % (side, t[ml], t[el], uid)))
